@@ -215,6 +215,41 @@ def native_int_replay(p, mode, axis):
                         f'(int input gives {a[idx]!r}, float input {b[idx]!r})')
 
 
+MACHINE_DTYPES = ('int64', 'int32', 'int16', 'int8', 'uint8', 'uint16', 'uint32', 'uint64', 'float32', 'bool')
+
+
+def native_dtype_cases(orders=(2, 4, 6, 8)):
+    """the symbolic integer obligations treat integers as mathematical; this runs the real operators on fields held in every
+    machine dtype (small values, so that the true result is representable) against the same field in float64"""
+    import warnings
+    import aurel
+    rng = np.random.default_rng(5)
+    N = 20
+    base = rng.integers(0, 50, size=(N, N + 1, N + 2))
+    bad, n = [], 0
+    with warnings.catch_warnings():
+        warnings.simplefilter('ignore')
+        for p in orders:
+            for mode in MODES:
+                fd = aurel.FiniteDifference(dict(Nx=N, Ny=N + 1, Nz=N + 2, xmin=0., ymin=0., zmin=0., dx=0.5, dy=0.25, dz=1.0), boundary=mode, fd_order=p, verbose=False)
+                for dt in MACHINE_DTYPES:
+                    f = (base % 2).astype(bool) if dt == 'bool' else base.astype(dt)
+                    tol = 1e-3 if dt == 'float32' else 1e-10
+                    for ax, op in enumerate((fd.d3x, fd.d3y, fd.d3z)):
+                        n += 1
+                        ref = op(f.astype(np.float64))
+                        try:
+                            out = np.asarray(op(f), dtype=float)
+                        except Exception as e:
+                            bad.append(f'd3{"xyz"[ax]} (order {p}, {mode}) on a {dt} field raises {type(e).__name__}: {e}')
+                            continue
+                        err = float(np.max(np.abs(out - ref)))
+                        if not err <= tol:
+                            idx = tuple(int(i) for i in np.unravel_index(int(np.argmax(np.abs(out - ref))), ref.shape))
+                            bad.append(f'd3{"xyz"[ax]} (order {p}, {mode}) on a {dt} field differs from the same field in float64 by {err:.3g} at index {idx}')
+    return bad, n
+
+
 def native_poly_replay(p, mode, axes=(0, 1, 2), long_axis=None):
     """replay on the real code: random real field on non-cubic grids of the minimum supported size
     and above; every output sample of d3x/d3y/d3z is compared with the reference linear
@@ -354,6 +389,14 @@ def run(R):
             R.ob(f'fd.d3{"xyz"[axis]}[order={p},{mode}, integer-dtype field]:same real-valued derivative (no truncation to the input dtype)', 'd3' + 'xyz'[axis], st, 'z3', secs,
                  '' if okv else ('; '.join(undec) or '; '.join(f'{a}: {b}' for a, b, _ in fails[:3])),
                  None if okv else [f[0] for f in fails], replay=lambda o, mode=mode, axis=axis: native_int_replay(4, mode, axis))
+    # machine dtypes on the real code: narrow and unsigned integers, float32, bool (the z3 obligations above treat integers as
+    # mathematical integers)
+    t0 = time.time()
+    dbad, dn = native_dtype_cases((2, 4, 6, 8) if R.tier != 'quick' else (2, 4, 8))
+    R.bounded.append(dict(function='aurel.finitedifference d3x/d3y/d3z on machine dtypes', bound=f'{dn} operator applications: orders x 3 modes x 3 axes x {len(MACHINE_DTYPES)} dtypes, one 20x21x22 field with values in [0, 50)'))
+    R.ob('fd.d3xyz[every machine dtype of the field]:same real-valued derivative as for the field in float64 (no wrap-around, no OverflowError)', 'd3x',
+         'refuted' if dbad else 'bounded-ok', 'bounded-native', time.time() - t0, '; '.join(dbad[:4]) or f'{dn} applications agree', dbad[:6] or None,
+         bounded=f'{dn} applications', replay=lambda o: (lambda b: (bool(b[0]), '; '.join(b[0][:4]) or 'no difference'))(native_dtype_cases()))
     # long axes on the real code (cross-check of the all-N proof against anything keyed to a fixed size): 300 and 1100 points
     for mode in MODES:
         t0 = time.time()
